@@ -196,7 +196,7 @@ Definition count_updates (ss : streams) : nat :=
   fold_left (fun k ns =>
                fold_left (fun k it => match it with
                                       | IUpd n => (k + List.length (n_updates n))%nat
-                                      | ISync => k
+                                      | ISync | IReset => k
                                       end) (snd ns) k) ss 0%nat.
 
 Definition canonical_sched (ss : streams) (p1 : list (string * nat)) : list action :=
@@ -252,7 +252,7 @@ Definition model_cli (c : case) (a : cli_args) : option view :=
 
 Definition decodable (s : list item) : bool :=
   forallb (fun it => match it with
-                     | ISync => true
+                     | ISync | IReset => true
                      | IUpd n => forallb (fun u => match to_scalar (snd u) with Some _ => true | None => false end)
                                          (n_updates n)
                      end) s.
@@ -298,7 +298,7 @@ Definition spec_view (c : case) (name : string) (q : path) : list (path * scalar
 (** known-finding classes (see /verif/known_findings.d/C01.json) *)
 Definition has_path_origin (s : list item) : bool :=
   existsb (fun it => match it with
-                     | ISync => false
+                     | ISync | IReset => false
                      | IUpd n =>
                          String.eqb (item_prefix_origin it) ""
                          && (existsb (fun u => str_nonempty (g_origin (fst u))) (n_updates n)
@@ -315,7 +315,7 @@ Fixpoint tv_has_negzero (v : tv) : bool :=
 
 Definition has_negzero (s : list item) : bool :=
   existsb (fun it => match it with
-                     | ISync => false
+                     | ISync | IReset => false
                      | IUpd n => existsb (fun u => tv_has_negzero (snd u)) (n_updates n)
                      end) s.
 
